@@ -45,6 +45,9 @@ fn syn_policy(v6: bool) {
     let tcp_req = TcpPacket::new(&buf[..n]).unwrap();
     let flags = tcp_req.get_flags();
     kani::assume(flags & TcpFlags::SYN != 0);
+    // SYN segments that also carry PSH and ACK take the data path: decided by c07_data_* (which
+    // also asserts that no reply on that path ever carries SYN)
+    kani::assume(flags & (TcpFlags::PSH | TcpFlags::ACK) != (TcpFlags::PSH | TcpFlags::ACK));
     let masscanned = ms_plain([kani::any(), kani::any()], MacAddr::new(0, 1, 2, 3, 4, 5));
     let mut ci = ClientInfo::new();
     if v6 {
@@ -95,7 +98,7 @@ fn syn_policy(v6: bool) {
 //# tier: quick
 //# encodes: layer_4::tcp::repl
 //# encodes: synackcookie::generate (real SipHash-2-4 via siphasher)
-//# bounds: all 9 flag bits with SYN set (256 combinations) x reserved bits x seq/ack/ports/window/urgent full width x key 2x64 bit x IPv4 addresses full width; segment length 20 or 24, data offset 5 or 6
+//# bounds: all 9 flag bits with SYN set and not both PSH and ACK (192 combinations; the other 64 are decided by c07_data_*) x reserved bits x seq/ack/ports/window/urgent full width x key 2x64 bit x IPv4 addresses full width; segment length 20 or 24, data offset 5 or 6
 //# stubs: proto::repl -> arbitrary Option<Vec<u8>> of <= 3 bytes, may rewrite port.dst (only reachable on the PSH|ACK arm)
 //# assumes: client_info carries both IP addresses (set by layer 3 before the call)
 //# out: payload lengths > 4 bytes (payload is not read on the SYN arm)
